@@ -1,6 +1,7 @@
 package driver
 
 import (
+	"math"
 	"sort"
 	"testing"
 
@@ -240,6 +241,24 @@ func drawColumns(w *simrt.Tape, name string, nSets int) (cols [][]float64, maxDi
 			domains.ForceStateWidthClass(name, c, domains.StateWidthClass(name, cols[0]))
 		}
 		cols = append(cols, c)
+	}
+	if !mixed && nSets > 1 && w.Choose(10) == 9 {
+		// near-equal sets: every set is the first one with each non-integer value moved by a few
+		// parts in 10^10 (an ensemble of finite-difference perturbations): the cells still have
+		// their own parameters
+		base := cols[fullAt] // (the set that uses the full table, so that the table size stays what it is)
+		for j := 0; j < nSets; j++ {
+			if j == fullAt {
+				continue
+			}
+			c := cloneF(base)
+			for i, v := range c {
+				if v != math.Floor(v) && !math.IsInf(v, 0) && !math.IsNaN(v) {
+					c[i] = v * (1 + float64(1+w.Choose(9))*1e-10)
+				}
+			}
+			cols[j] = c
+		}
 	}
 	if mixed {
 		// state vectors of different width are supported when the widest comes first (the state
